@@ -456,7 +456,24 @@ def fstVarType (k : LeafKind) (firstAtom : Nat) : String :=
 def fstScopeKind (k : String) : String :=
   if k = "GhwGeneric" then "Module" else if k = "VhdlArray" then "Struct" else k
 
-/-- the labels an FST rendering of the design shows: no type names, no enum tables; kinds as written by the FST writer -/
+/-- the VHDL data type the FST writer attaches to a variable (GHDL's SupVar attribute), from its VHDL type name -/
+def fstDataType (ghwVarType : String) (tname : String) : Nat :=
+  let tn := tname.toLower
+  if ghwVarType = "StdULogic" then 4 else if ghwVarType = "StdLogic" then 6 else if ghwVarType = "Bit" then 2
+  else if ghwVarType = "StdULogicVector" then 5 else if ghwVarType = "StdLogicVector" then 7 else if ghwVarType = "BitVector" then 3
+  else if ghwVarType = "Enum" then (if tn = "boolean" then 1 else 0)
+  else if ghwVarType = "Integer" then (if tn = "integer" then 10 else if tn = "natural" then 12 else 0)
+  else if ghwVarType = "Real" then 11 else 0
+
+/-- the variable kind shown for an FST variable that carries a VHDL data type attribute -/
+def fstMerged (vcdKind : String) (dt : Nat) : String :=
+  match dt with
+  | 1 => "Boolean" | 2 => "Bit" | 3 => "BitVector" | 4 => "StdULogic" | 5 => "StdULogicVector"
+  | 6 => "StdLogic" | 7 => "StdLogicVector" | 10 => "Integer" | 11 => "Real" | 14 => "Time" | 16 => "String"
+  | _ => vcdKind
+
+/-- the labels an FST rendering of the design shows: kinds as written by the FST writer merged with the VHDL data type,
+type names and enum tables from the attributes -/
 def fstOps (d : Denotation) : List LOp :=
   d.ops.map fun o =>
     match o.op with
@@ -466,9 +483,12 @@ def fstOps (d : Denotation) : List LOp :=
       | _ => o
     | .var _ _ =>
       let lf := d.leaves.getD o.sig default
-      match o.label.splitOn "," with
-      | [_, n, dir, enc, idx] => { o with label := s!"{fstVarType lf.kind (lf.atoms.headD 0)},{n},{dir},{enc},{idx}", tail := "-,-" }
-      | _ => o
+      match o.label.splitOn ",", o.tail.splitOn "," with
+      | [gvt, n, dir, enc, idx], tn :: _ =>
+        let tname := ((unhex tn).map strOf).getD ""
+        let vt := fstMerged (fstVarType lf.kind (lf.atoms.headD 0)) (fstDataType gvt tname)
+        { o with label := s!"{vt},{n},{dir},{enc},{idx}" }
+      | _, _ => o
     | .pop => o
 
 /-- FST has no delta cycles: one value per signal and time, the last one -/
